@@ -5,7 +5,7 @@ import os
 import common
 
 PROPS = "RotoV.Props.C05"
-MODULES = ["RotoV.Model.BoundaryLayout", "RotoV.Model.Boundary", "RotoV.Lemmas.BoundaryArith", "RotoV.Lemmas.BoundaryPlace", "RotoV.Lemmas.BoundaryPinned",
+MODULES = ["RotoV.Model.BoundaryLayout", "RotoV.Model.Boundary", "RotoV.Model.BoundaryParams", "RotoV.Lemmas.BoundaryArith", "RotoV.Lemmas.BoundaryPlace", "RotoV.Lemmas.BoundaryPinned",
            "RotoV.Lemmas.BoundaryLayout", "RotoV.Lemmas.BoundaryAbi", "RotoV.Lemmas.BoundaryValues"]
 # reads of host storage are copies: the store model of the LIR and its provenance check
 PROPS_STORE = "RotoV.Props.C05Store"
